@@ -4,7 +4,7 @@ From Coq Require Import String List NArith ZArith Bool.
 From J5V.lib Require Import Outcome Json.
 From J5V.model Require Import CodecTypes CodecDecScalar CodecDec CodecDecQuery CodecDecTree.
 From J5V.lib Require Base64.
-From J5V.proofs Require Import CodecDecProofs CodecDecExact CodecDecTreeProofs CodecDecFaults CodecDecStored CodecDecBase64.
+From J5V.proofs Require Import CodecDecProofs CodecDecExact CodecDecTreeProofs CodecDecFaults CodecDecStored CodecDecBase64 CodecDecVariants.
 Import ListNotations.
 Local Open Scope N_scope.
 
@@ -319,6 +319,40 @@ Theorem C03_array_member_own : forall orc e f d p k v m m1,
 Proof. exact array_member_own. Qed.
 Print Assumptions C03_array_member_own.
 
+(* ------------------------------------------------------------------ documents: alternate spellings *)
+(* Leniency clause, at document level: [variant_members] (proofs/CodecDecVariants.v) relates two member
+   lists of the same shape — same keys in the same order, to any depth through objects, oneofs, arrays
+   and maps — whose leaves may differ, each pair of leaves being two spellings that the field kind's
+   conversion maps to the same result (which the scalar theorems establish for quoted / bare numbers,
+   the four base64 forms, ...; for enums: the same option).  Such documents decode to the same result:
+   the same message, or both an error. *)
+Theorem C03_respelled_documents_same_result : forall orc e root props bs bs' ms ms' rest rest' me me',
+  lookup e root = Some (SObject props) ->
+  lex bs = (tokens_of (JObj ms) ++ rest, me) -> lex bs' = (tokens_of (JObj ms') ++ rest', me') ->
+  variant_members orc e props ms ms' ->
+  decode_bytes orc e root bs = decode_bytes orc e root bs'.
+Proof. exact variant_documents_same_result. Qed.
+Print Assumptions C03_respelled_documents_same_result.
+
+(* {"i":"-7","r":["a"]} and {"i":-7,"r":["a"]} on ex_env-like properties *)
+Definition var_env : env :=
+  [([78], SObject [mkProp [105] [6] false false [] (FScalar KInt32);
+                   mkProp [114] [2] false false [] (FArray (FScalar KString))])].
+Definition var_doc1 : bytes := [123;34;105;34;58;34;45;55;34;44;34;114;34;58;91;34;97;34;93;125].
+Definition var_doc2 : bytes := [123;34;105;34;58;45;55;44;34;114;34;58;91;34;97;34;93;125].
+Example C03_example_respelled :
+  lex var_doc1 = (tokens_of (JObj [([105], JStr [45;55]); ([114], JArr [JStr [97]])]) ++ [], false) /\
+  lex var_doc2 = (tokens_of (JObj [([105], JNum [45;55]); ([114], JArr [JStr [97]])]) ++ [], false) /\
+  variant_members no_oracles var_env
+    [mkProp [105] [6] false false [] (FScalar KInt32); mkProp [114] [2] false false [] (FArray (FScalar KString))]
+    [([105], JStr [45;55]); ([114], JArr [JStr [97]])] [([105], JNum [45;55]); ([114], JArr [JStr [97]])] /\
+  decode_bytes no_oracles var_env [78] var_doc1 = Ok [(2, VList [VStr [97]]); (6, VInt (-7))].
+Proof.
+  split; [vm_compute; reflexivity|]. split; [vm_compute; reflexivity|]. split; [|vm_compute; reflexivity].
+  eapply VM_member; [reflexivity | reflexivity | split; discriminate | | apply VM_same; apply VM_nil].
+  apply V_scalar; [reflexivity | reflexivity | split; discriminate | vm_compute; reflexivity].
+Qed.
+
 (* ------------------------------------------------------------------ URL query parameters *)
 (* a scalar supplied as the single value of a query parameter is stored exactly as the JSON member
    carrying the corresponding token (the quoted string; for bool fields the literals true / false) *)
@@ -356,9 +390,12 @@ Proof. vm_compute. repeat split; reflexivity. Qed.
    leniency    documents that differ only by documented spellings of leaves, member order, whitespace
                and explicit nulls decode to the same message.
    Exactness and rejection are theorems above (exactness under the schema condition props_separate).
-   Leniency is proved leaf by leaf (integers, floats, decimals quoted or bare; enum prefix; explicit null
-   members) but NOT lifted to whole documents, and not at all for base64 spellings, timestamp offsets,
-   member reordering and whitespace: those are checked by the direct oracle and the correspondence only. *)
+   Leniency: documents of the same shape whose leaves are respelled in any combination decode to the
+   same result (C03_respelled_documents_same_result), the leaf facts being the scalar theorems
+   (integers, floats, decimals quoted or bare; the four base64 forms; enum prefix); explicit null
+   members are skipped (C03_null_member_skipped, member level).  NOT proved: timestamps at different
+   offsets denote the same instant (time.Parse is uninterpreted), member reordering, insignificant
+   whitespace, and null-padding lifted to whole documents: direct oracle and correspondence only. *)
 Definition C03_exactness_statement : Prop :=
   forall orc e root props bs ms rest me m',
     lookup e root = Some (SObject props) -> props_separate e props ->
